@@ -483,12 +483,16 @@ func (h kvHandler) handleKvRawBatchGet(req *kvrpcpb.RawBatchGetRequest) *kvrpcpb
 		}
 	}
 	values := rawKV.RawBatchGet(req.Cf, req.Keys)
-	kvPairs := make([]*kvrpcpb.KvPair, len(values))
+	kvPairs := make([]*kvrpcpb.KvPair, 0, len(values))
 	for i, key := range req.Keys {
-		kvPairs[i] = &kvrpcpb.KvPair{
+		if values[i] == nil {
+			// absent keys are omitted from the response (as TiKV does)
+			continue
+		}
+		kvPairs = append(kvPairs, &kvrpcpb.KvPair{
 			Key:   key,
 			Value: values[i],
-		}
+		})
 	}
 	return &kvrpcpb.RawBatchGetResponse{
 		Pairs: kvPairs,
